@@ -6,6 +6,7 @@ import (
 	"fmt"
 	"os"
 	"runtime"
+	"sort"
 	"strings"
 	"time"
 
@@ -34,22 +35,24 @@ type AScenario struct {
 	Hays    []string `json:"hays_hex"`
 	Cycle   []Op     `json:"cycle"`
 	Reps    int      `json:"reps"`
-	Only    string   `json:"only,omitempty"` // replay: restrict I5 to this API
-	Slow    []bool   `json:"slow,omitempty"` // haystacks left out as too slow (decided by wall clock on first execution, recorded so that a replay takes the same decisions)
+	Only    string   `json:"only,omitempty"`        // replay: restrict I5 to this API
+	Variety []string `json:"variety_hex,omitempty"` // distinct inputs for the variety phase (I7)
+	Slow    []bool   `json:"slow,omitempty"`        // haystacks left out as too slow (decided by wall clock on first execution, recorded so that a replay takes the same decisions)
 }
 
 type AOutcome struct {
-	Class          string       `json:"class"` // "" | alloc | invariant
-	Violations     []HViolation `json:"violations,omitempty"`
-	Strategy       string
-	ZeroCalls      int // zero-allocation measurements taken
-	Gated          int // measurements dropped because a cache was cleared while measuring
-	Cycles         int
-	Footprint      []int `json:"footprint_first_cycles,omitempty"`
-	DeepFootprint  []int `json:"reachable_bytes_first_cycles,omitempty"`
-	HeapEarly      uint64
-	HeapLate       uint64
-	HeapGrowthSeen bool
+	Class                                       string       `json:"class"` // "" | alloc | invariant
+	Violations                                  []HViolation `json:"violations,omitempty"`
+	Strategy                                    string
+	ZeroCalls                                   int // zero-allocation measurements taken
+	Gated                                       int // measurements dropped because a cache was cleared while measuring
+	Cycles                                      int
+	Footprint                                   []int `json:"footprint_first_cycles,omitempty"`
+	DeepFootprint                               []int `json:"reachable_bytes_first_cycles,omitempty"`
+	HeapEarly                                   uint64
+	HeapLate                                    uint64
+	HeapGrowthSeen                              bool
+	VarietyBefore, VarietyAfter, VarietyGrowing int
 }
 
 var blowupPatterns = []string{`a[ab]{12}[cd]`, `[cd][ab]{10}a[ab]*x`, `ab[ab]{20}c`, `(a|b)*a(a|b){9}`, `[01]*1[01]{11}`, `[ab]*a[ab]{13}c`, `([ab]*)a[ab]{3}c`}
@@ -117,6 +120,25 @@ func genAlloc(seed uint64, index int, tier string) *AScenario {
 		}
 		sc.Hays = append(sc.Hays, hex.EncodeToString(genHaystack(hr, sc.Pattern, re, alpha, pick(hr, []int{1, 2, 2, 3, 3}))))
 	}
+	vr := r.fork(7)
+	if vr.p(1, 2) {
+		for i := 0; i < 130; i++ {
+			a := alpha
+			if blow {
+				a = patternOnlyAlphabet(alpha)
+			}
+			h := genHaystack(vr, sc.Pattern, re, a, pick(vr, []int{1, 2, 2, 3}))
+			if len(h) > 0 && vr.p(2, 3) {
+				// spread the lengths: every input its own size, not a handful of classes
+				want := vr.between(1, 9000)
+				for len(h) < want {
+					h = append(h, h...)
+				}
+				h = h[:want]
+			}
+			sc.Variety = append(sc.Variety, hex.EncodeToString(h))
+		}
+	}
 	or := r.fork(4)
 	k := or.between(1, 4)
 	for i := 0; i < k; i++ {
@@ -168,6 +190,28 @@ func totalClears(re *coregex.Regex) int {
 		}
 	}
 	return n
+}
+
+func topGrowth(a, b map[string]int) string {
+	type kv struct {
+		k string
+		d int
+	}
+	var g []kv
+	for k, v := range b {
+		if v > a[k] {
+			g = append(g, kv{k, v - a[k]})
+		}
+	}
+	sort.Slice(g, func(i, j int) bool { return g[i].d > g[j].d || g[i].d == g[j].d && g[i].k < g[j].k })
+	if len(g) > 4 {
+		g = g[:4]
+	}
+	s := ""
+	for _, e := range g {
+		s += fmt.Sprintf("%s +%d; ", e.k, e.d)
+	}
+	return s
 }
 
 func mallocs() uint64 {
@@ -306,7 +350,7 @@ func runAlloc(sc *AScenario) *AOutcome {
 	prev := runtime.GOMAXPROCS(1)
 	defer runtime.GOMAXPROCS(prev)
 	fail := func(kind, what string) {
-		if len(out.Violations) < 12 {
+		if len(out.Violations) < 12 || kind == "invariant" {
 			out.Violations = append(out.Violations, HViolation{Kind: kind, What: what})
 		}
 		if out.Class == "" || kind == "invariant" {
@@ -431,6 +475,80 @@ func runAlloc(sc *AScenario) *AOutcome {
 			break
 		}
 	}
+	// I7 variety: after warming up on the largest of a set of different inputs, working
+	// through the rest may only grow what has a configured bound with room left (lazy-DFA
+	// caches up to their capacity, the visited table up to its cap); anything else that
+	// grows with the number of distinct inputs is unbounded growth.
+	if len(sc.Variety) > 12 {
+		vb := make([][]byte, len(sc.Variety))
+		for i, h := range sc.Variety {
+			vb[i], _ = hex.DecodeString(h)
+		}
+		// largest first
+		for i := 1; i < len(vb); i++ {
+			for j := i; j > 0 && len(vb[j]) > len(vb[j-1]); j-- {
+				vb[j], vb[j-1] = vb[j-1], vb[j]
+			}
+		}
+		use := func(b []byte) {
+			n := len(b)
+			if n*(n/64+1)/1000*nfaSize > 50000 {
+				return
+			}
+			re.Count(b, -1)
+			re.FindSubmatchIndex(b)
+			re.Match(b)
+			re.ReplaceAllLiteral(b, nil)
+		}
+		warm := 10
+		for _, b := range vb[:warm] {
+			use(b)
+		}
+		for _, b := range vb[:warm] {
+			use(b)
+		}
+		// One-time allocations (an engine's scratch on its first use, a buffer reaching
+		// its largest size) can land anywhere, so a single jump proves nothing; growth
+		// that keeps coming interval after interval as new inputs arrive, beyond what the
+		// bounded caches took from their remaining room, does.
+		measure := func() (int, map[string]int) {
+			return deepBreakdown(true, re, re.VerifEngine().VerifLocalState(), simrt.Pools())
+		}
+		const step = 10
+		stage := func(inputs [][]byte) (intervals, growing, d0, d1 int, b0, b1 map[string]int) {
+			d0, b0 = measure()
+			dPrev := d0
+			for i := 0; i+step <= len(inputs); i += step {
+				for _, b := range inputs[i : i+step] {
+					use(b)
+				}
+				d, bb := measure()
+				intervals++
+				if d-dPrev > 32 {
+					growing++
+				}
+				dPrev, b1 = d, bb
+			}
+			d1 = dPrev
+			return
+		}
+		rest := vb[warm:]
+		half := len(rest) / 2 / step * step
+		n1, g1, d0, d1, b0, _ := stage(rest[:half])
+		out.VarietyBefore, out.VarietyAfter, out.VarietyGrowing = d0, d1, g1
+		if g1 >= 3 && os.Getenv("VSIM_VARIETY_NOTES") != "" {
+			_, bb := measure()
+			fmt.Fprintln(os.Stderr, "variety note:", sc.Index, sc.Pattern, out.Strategy, g1, d0, d1, topGrowth(b0, bb))
+		}
+		if n1 >= 6 && g1 >= n1-1 {
+			// confirm on as many inputs again: a leak keeps going, start-up effects do not
+			n2, g2, _, d2, _, b2 := stage(rest[half:])
+			out.VarietyAfter = d2
+			if n2 >= 6 && g2 >= n2-1 {
+				fail("invariant", fmt.Sprintf("memory reachable from the Regex (outside the capacity-bounded caches and tables) grows with the variety of inputs: %d bytes after %d warm-up inputs, %d after %d more, growing in %d of %d and then %d of %d intervals of %d new inputs; grew: %s", d0, warm, d2, (n1+n2)*step, g1, n1, g2, n2, step, topGrowth(b0, b2)))
+			}
+		}
+	}
 	out.Cycles = sc.Reps
 	out.Footprint = fp
 	out.DeepFootprint = deepFp
@@ -476,6 +594,10 @@ func allocBatch(base uint64, from, to int, tier string, budget time.Duration, st
 		sum.Strategies[out.Strategy]++
 		if out.HeapGrowthSeen {
 			sum.Probes["heap_growth_observed_informational"]++
+		}
+		if len(sc.Variety) > 0 {
+			sum.Probes["variety_phase_runs"]++
+			sum.Probes[fmt.Sprintf("variety_growing_intervals_%d", out.VarietyGrowing)]++
 		}
 		zero += out.ZeroCalls
 		gated += out.Gated
